@@ -424,15 +424,13 @@ def case_variants(ctx, text, name='cv'):
 def str_of_int(it, v):
     """str(n) for a symbolic int: enumerated when the path condition leaves few values, otherwise
     an atom with provenance (int(str(n)) == n is the assumed law, DESIGN 2.12)."""
-    # enumerate only when the path condition confines n to a handful of values
-    r0, m0 = it.ctx._check(z3.BoolVal(True), it.ctx.FEAS_TIMEOUT_MS)
-    if r0 == z3.sat:
-        c0 = m0.eval(v.t, model_completion=True).as_long()
-        if not it.ctx.feasible(z3.Or(v.t > c0 + 8, v.t < c0 - 8)):
-            try:
-                return str(it.ctx.decide_by_model(v.t, cap=20))
-            except EngineError:
-                pass
+    # enumerate only when the path condition confines n to a small window (decided by entailment,
+    # never by a solver model: the exploration must replay deterministically)
+    if not it.ctx.feasible(z3.Or(v.t < -1, v.t > 40)):
+        try:
+            return str(it.ctx.decide_by_model(v.t, cap=45))
+        except EngineError:
+            pass
     cache = it.ctx.__dict__.setdefault('strofint_cache', {})
     hit = cache.get(v.t.get_id())
     if hit is not None and hit[0].eq(v.t):
